@@ -155,11 +155,6 @@ func callerPos(fr *frame) string {
 	return fr.caller.fn.String()
 }
 
-// runCleanups runs cleanups whose object is no longer reachable from the roots.
-// (Reachability model: see DESIGN.md §2.6; implemented when C09 needs it.)
-func runCleanups(fr *frame) {
-	panic(unsupported("RunCleanups not implemented yet"))
-}
 
 // Params are the tier parameters of the running harness (verif.Param).
 var Params map[string]int
